@@ -3,16 +3,20 @@
    of the Kalman prediction and correction, for both constructors (noise declared
    additive / noise entering through the model with the belief augmented by the
    noise statistics), every component, every (alpha, beta, kappa) with
-   c = n + lambda > 0.  Statements only; each is closed by a lemma of C04_Proofs
+   c = n + lambda <> 0.  Statements only; each is closed by a lemma of C04_Proofs
    (corollaries of C03's affine exactness).  F is an arbitrary realFieldType; the
-   square-root oracles enter through their contracts (premises sqrt_contract,
-   sq_contract).  plain_layout L n: n linear rows, no circular component, no noise
-   rows (C04 quantifies over linear models; for them the measurement description's
-   total_size, used as slice offset, equals the width of the cross-covariance blocks). *)
+   square-root oracles enter through per-instance premises about the values they
+   returned in the step at hand (sqrt c * sqrt c = c; sq P *m (sq P)^T = P for each
+   covariance the transform factorises — the augmented blockdiag(P, Q) for the generic
+   constructors).  plain_layout L n: n linear rows, no circular component, no noise rows
+   (C04 quantifies over linear models).  The measurement description needs m linear and
+   no circular components; its noise components are irrelevant: the slice of the stored
+   cross-covariance is taken by predicted_meas_.dim_covariance (offset and width). *)
 Require Import ZArith QArith List.
 Require Import BFL.Ops BFL.ListOps BFL.Density BFL.C01_Model BFL.C02_Model BFL.C03_Model BFL.C04_Model.
 From mathcomp Require Import all_ssreflect all_algebra.
 Require Import BFL.MxOps BFL.LinAlg BFL.C03_Proofs BFL.C04_Proofs.
+Require Import BFL.ListOpsCorrect BFL.C02_Transport BFL.C04_Transport.
 Import GRing.Theory Num.Theory.
 Local Open Scope ring_scope.
 
@@ -22,17 +26,15 @@ Variable tr : Transc F.
 Variable sq : forall n, 'M[F]_n -> 'M[F]_n.
 Variable eg : forall n, 'M[F]_n -> 'M[F]_(n,1).
 Let O := MxMat tr sq eg.
-Variable sqrt_contract : forall x : F, 0 <= x -> t_sqrt tr x * t_sqrt tr x = x.
-Variable sq_contract : forall n (P : 'M[F]_n), psd P -> sq n P *m (sq n P)^T = P.
-
 (* x' = F x + w, noise additive: every component (F m, F P F^T + Q), same count and
    order; the predicted mixture is a fresh one (layout of the state description,
    uniform weights) *)
 Theorem C04_predict_additive (n : nat) (alpha beta kappa : F) (prev : mixture O n n)
         (Lstate : layout) (Ft Q : 'M[F]_n) (q : nat) :
-  plain_layout (mx_layout prev) n -> (forall mc, In mc (mx_comps prev) -> psd mc.2) ->
-  l_lin Lstate = n -> l_circ Lstate = 0%N ->
-  0 < w_c (ut_weights (O:=O) n alpha beta kappa) ->
+  plain_layout (mx_layout prev) n -> l_lin Lstate = n -> l_circ Lstate = 0%N ->
+  let w := ut_weights (O:=O) n alpha beta kappa in
+  w_c w != 0 -> t_sqrt tr (w_c w) * t_sqrt tr (w_c w) = w_c w ->
+  (forall mc, In mc (mx_comps prev) -> sq n mc.2 *m (sq n mc.2)^T = mc.2) ->
   ukf_predict_additive (O:=O) Lstate alpha beta kappa false false (linear_cols (O:=O) Ft) Q q prev =
   mkMix (O:=O) (l_noiseless Lstate) (List.map (kf_predict_comp (O:=O) Ft Q) (mx_comps prev))
         (repeat (1 / (length (mx_comps prev))%:R) (length (mx_comps prev))).
@@ -42,10 +44,12 @@ Proof. by move=> *; exact: ukf_predict_additive_linear. Qed.
    prediction with Q = B Qw B^T *)
 Theorem C04_predict_augmented (n q : nat) (alpha beta kappa : F) (prev : mixture O n n)
         (Ldesc Lstate : layout) (Ft : 'M[F]_n) (B : 'M[F]_(n,q)) (Qw : 'M[F]_q) :
-  plain_layout (mx_layout prev) n -> (forall mc, In mc (mx_comps prev) -> psd mc.2) ->
-  l_lin Lstate = n -> l_circ Lstate = 0%N ->
-  l_dcov Ldesc = (n + q)%N -> psd Qw ->
-  0 < w_c (ut_weights (O:=O) (n + q) alpha beta kappa) ->
+  plain_layout (mx_layout prev) n -> l_lin Lstate = n -> l_circ Lstate = 0%N ->
+  l_dcov Ldesc = (n + q)%N ->
+  let w := ut_weights (O:=O) (n + q) alpha beta kappa in
+  w_c w != 0 -> t_sqrt tr (w_c w) * t_sqrt tr (w_c w) = w_c w ->
+  (forall mc, In mc (mx_comps prev) ->
+     sq (n + q) (block_mx mc.2 0 0 Qw) *m (sq (n + q) (block_mx mc.2 0 0 Qw))^T = block_mx mc.2 0 0 Qw) ->
   ukf_predict_generic (O:=O) Ldesc Lstate alpha beta kappa false false
                       (linear_cols (O:=O) (row_mx Ft B)) Qw prev =
   mkMix (O:=O) (l_noiseless Lstate)
@@ -58,15 +62,37 @@ Theorem C04_kf_predict_is_C02 (n : nat) (Ft Q : 'M[F]_n) (xP : 'cV[F]_n * 'M[F]_
   kf_predict_comp (O:=O) Ft Q xP = (Ft *m xP.1, kf_predict_cov (O:=O) Ft Q xP.2).
 Proof. exact: kf_predict_comp_C02. Qed.
 
+(* ... its mean is C02's LinearStateModel::propagate on the one-column matrix *)
+Theorem C04_kf_predict_mean_is_C02 (n : nat) (Ft : 'M[F]_n) (c x old : 'cV[F]_n) :
+  lin_propagate (O:=O) Ft None false false x old = Ft *m x /\
+  lin_propagate (O:=O) Ft (Some (affine_exo (O:=O) (0 : 'M[F]_n) c)) false false x old = Ft *m x + c.
+Proof. by split; [exact: kf_predict_mean_C02 | exact: kf_predict_mean_exo_C02]. Qed.
+
+(* x' = F x + c + w with a constant exogenous input c: the Kalman prediction with that
+   input (F m + c, F P F^T + Q) *)
+Theorem C04_predict_additive_exogenous (n : nat) (alpha beta kappa : F) (prev : mixture O n n)
+        (Lstate : layout) (Ft Q : 'M[F]_n) (c : 'cV[F]_n) (q : nat) :
+  plain_layout (mx_layout prev) n -> l_lin Lstate = n -> l_circ Lstate = 0%N ->
+  let w := ut_weights (O:=O) n alpha beta kappa in
+  w_c w != 0 -> t_sqrt tr (w_c w) * t_sqrt tr (w_c w) = w_c w ->
+  (forall mc, In mc (mx_comps prev) -> sq n mc.2 *m (sq n mc.2)^T = mc.2) ->
+  ukf_predict_additive (O:=O) Lstate alpha beta kappa false false (affine_cols (O:=O) Ft c) Q q prev =
+  mkMix (O:=O) (l_noiseless Lstate)
+        (List.map (fun xP => (Ft *m xP.1 + c, kf_predict_cov (O:=O) Ft Q xP.2)) (mx_comps prev))
+        (repeat (1 / (length (mx_comps prev))%:R) (length (mx_comps prev))).
+Proof. by move=> *; exact: ukf_predict_additive_affine. Qed.
+
 (* y = H x + v, noise additive: the whole outcome of correctStep — corrected
    components written over the first entries of the output object (its other
    components, layout and weights untouched), innovations and innovation
    covariances kept for the likelihood — is that of C01's Kalman correction *)
 Theorem C04_correct_additive (n m : nat) (alpha beta kappa : F) (H : 'M[F]_(m,n)) (y : 'cV[F]_m)
         (pred old : mixture O n n) (st : ukf_state O m) (Lmeas Ldesc : layout) (R : 'M[F]_m) :
-  plain_layout (mx_layout pred) n -> (forall mc, In mc (mx_comps pred) -> psd mc.2) ->
-  plain_layout Lmeas m -> l_lin Ldesc = n -> l_circ Ldesc = 0%N ->
-  0 < w_c (ut_weights (O:=O) n alpha beta kappa) ->
+  plain_layout (mx_layout pred) n -> l_lin Lmeas = m -> l_circ Lmeas = 0%N ->
+  l_lin Ldesc = n -> l_circ Ldesc = 0%N ->
+  let w := ut_weights (O:=O) n alpha beta kappa in
+  w_c w != 0 -> t_sqrt tr (w_c w) * t_sqrt tr (w_c w) = w_c w ->
+  (forall mc, In mc (mx_comps pred) -> sq n mc.2 *m (sq n mc.2)^T = mc.2) ->
   ukf_correct_additive (O:=O) Ldesc Lmeas alpha beta kappa false (Some y)
                        (fun X => Some (linear_cols (O:=O) H X)) (lin_innovation_cols (O:=O))
                        R pred old st =
@@ -78,9 +104,12 @@ Proof. by move=> *; exact: ukf_correct_additive_linear. Qed.
 Theorem C04_correct_augmented (n q m : nat) (alpha beta kappa : F) (H : 'M[F]_(m,n)) (y : 'cV[F]_m)
         (pred old : mixture O n n) (st : ukf_state O m) (Lmeas Ldesc : layout)
         (D : 'M[F]_(m,q)) (Rv : 'M[F]_q) :
-  plain_layout (mx_layout pred) n -> (forall mc, In mc (mx_comps pred) -> psd mc.2) ->
-  plain_layout Lmeas m -> l_dcov Ldesc = (n + q)%N -> psd Rv ->
-  0 < w_c (ut_weights (O:=O) (n + q) alpha beta kappa) ->
+  plain_layout (mx_layout pred) n -> l_lin Lmeas = m -> l_circ Lmeas = 0%N ->
+  l_dcov Ldesc = (n + q)%N ->
+  let w := ut_weights (O:=O) (n + q) alpha beta kappa in
+  w_c w != 0 -> t_sqrt tr (w_c w) * t_sqrt tr (w_c w) = w_c w ->
+  (forall mc, In mc (mx_comps pred) ->
+     sq (n + q) (block_mx mc.2 0 0 Rv) *m (sq (n + q) (block_mx mc.2 0 0 Rv))^T = block_mx mc.2 0 0 Rv) ->
   ukf_correct_generic (O:=O) Ldesc Lmeas alpha beta kappa false (Some y)
                       (fun X => Some (linear_cols (O:=O) (row_mx H D) X)) (lin_innovation_cols (O:=O))
                       Rv pred old st =
@@ -90,9 +119,11 @@ Proof. by move=> *; exact: ukf_correct_generic_linear. Qed.
 (* getLikelihood afterwards: the Kalman likelihoods N(y; H m_i, H P_i H^T + R) of C01 *)
 Theorem C04_likelihood_additive (n m : nat) (alpha beta kappa : F) (H : 'M[F]_(m,n)) (y : 'cV[F]_m)
         (pred old : mixture O n n) (st : ukf_state O m) (Lmeas Ldesc : layout) (R : 'M[F]_m) :
-  plain_layout (mx_layout pred) n -> (forall mc, In mc (mx_comps pred) -> psd mc.2) ->
-  plain_layout Lmeas m -> l_lin Ldesc = n -> l_circ Ldesc = 0%N ->
-  0 < w_c (ut_weights (O:=O) n alpha beta kappa) -> mx_comps pred <> [::] ->
+  plain_layout (mx_layout pred) n -> l_lin Lmeas = m -> l_circ Lmeas = 0%N ->
+  l_lin Ldesc = n -> l_circ Ldesc = 0%N ->
+  let w := ut_weights (O:=O) n alpha beta kappa in
+  w_c w != 0 -> t_sqrt tr (w_c w) * t_sqrt tr (w_c w) = w_c w ->
+  (forall mc, In mc (mx_comps pred) -> sq n mc.2 *m (sq n mc.2)^T = mc.2) -> mx_comps pred <> [::] ->
   ukf_likelihood (O:=O)
     (ukf_correct_additive (O:=O) Ldesc Lmeas alpha beta kappa false (Some y)
        (fun X => Some (linear_cols (O:=O) H X)) (lin_innovation_cols (O:=O)) R pred old st).1.2 =
@@ -103,9 +134,12 @@ Proof. by move=> *; exact: ukf_likelihood_additive_linear. Qed.
 Theorem C04_likelihood_augmented (n q m : nat) (alpha beta kappa : F) (H : 'M[F]_(m,n)) (y : 'cV[F]_m)
         (pred old : mixture O n n) (st : ukf_state O m) (Lmeas Ldesc : layout)
         (D : 'M[F]_(m,q)) (Rv : 'M[F]_q) :
-  plain_layout (mx_layout pred) n -> (forall mc, In mc (mx_comps pred) -> psd mc.2) ->
-  plain_layout Lmeas m -> l_dcov Ldesc = (n + q)%N -> psd Rv ->
-  0 < w_c (ut_weights (O:=O) (n + q) alpha beta kappa) -> mx_comps pred <> [::] ->
+  plain_layout (mx_layout pred) n -> l_lin Lmeas = m -> l_circ Lmeas = 0%N ->
+  l_dcov Ldesc = (n + q)%N ->
+  let w := ut_weights (O:=O) (n + q) alpha beta kappa in
+  w_c w != 0 -> t_sqrt tr (w_c w) * t_sqrt tr (w_c w) = w_c w ->
+  (forall mc, In mc (mx_comps pred) ->
+     sq (n + q) (block_mx mc.2 0 0 Rv) *m (sq (n + q) (block_mx mc.2 0 0 Rv))^T = block_mx mc.2 0 0 Rv) -> mx_comps pred <> [::] ->
   ukf_likelihood (O:=O)
     (ukf_correct_generic (O:=O) Ldesc Lmeas alpha beta kappa false (Some y)
        (fun X => Some (linear_cols (O:=O) (row_mx H D) X)) (lin_innovation_cols (O:=O)) Rv pred old st).1.2 =
@@ -148,9 +182,20 @@ Theorem C04_unusable_measurement_is_identity (O : MatOps) n m ms (y : M O m 1) g
   [/\ res.1.1 = pred, res.2 = [::] & ukf_likelihood res.1.2 = None].
 Proof. exact: ukf_correct_finish_unusable. Qed.
 
+(* transport: the Kalman prediction used as the spec side of the prediction half, executed at the
+   LIST instance, represents the MathComp one on well-formed inputs (any realFieldType) *)
+Theorem C04_transport_kf_predict (F : realFieldType) (tr : Transc F) sq eg (n : nat)
+        lF (Fm : 'M[F]_n) lQ (Q : 'M[F]_n) lx (x : 'cV[F]_n) lP (P : 'M[F]_n) :
+  let OL := ListMat (FOps tr) (fun _ X => X) (fun _ X => X) in
+  let OM := MxMat tr sq eg in
+  repr lF Fm -> repr lQ Q -> repr lx x -> repr lP P ->
+  repr (@kf_predict_comp OL n lF lQ (lx, lP)).1 (@kf_predict_comp OM n Fm Q (x, P)).1 /\
+  repr (@kf_predict_comp OL n lF lQ (lx, lP)).2 (@kf_predict_comp OM n Fm Q (x, P)).2.
+Proof. by move=> OL OM; exact: kf_predict_comp_transport. Qed.
+
 (* non-vacuity: the layout premises are those of the layouts the entry points build *)
-Example C04_layout_premises (n q m : nat) :
-  plain_layout (mkLayout n 0 false 0) n /\ plain_layout (mkLayout m 0 false 0) m /\
+Example C04_layout_premises (n q m mq : nat) :
+  plain_layout (mkLayout n 0 false 0) n /\ l_lin (mkLayout m 0 false mq) = m /\ l_circ (mkLayout m 0 false mq) = 0%N /\
   l_dcov (mkLayout n 0 false q) = (n + q)%N /\ l_lin (mkLayout n 0 false m) = n.
 Proof. by []. Qed.
 
@@ -187,6 +232,8 @@ Proof. vm_compute. reflexivity. Qed.
 Print Assumptions C04_predict_additive.
 Print Assumptions C04_predict_augmented.
 Print Assumptions C04_kf_predict_is_C02.
+Print Assumptions C04_kf_predict_mean_is_C02.
+Print Assumptions C04_predict_additive_exogenous.
 Print Assumptions C04_correct_additive.
 Print Assumptions C04_correct_augmented.
 Print Assumptions C04_likelihood_additive.
@@ -195,3 +242,4 @@ Print Assumptions C04_innovation_cov_invertible.
 Print Assumptions C04_skip_is_identity.
 Print Assumptions C04_no_measurement_is_identity.
 Print Assumptions C04_unusable_measurement_is_identity.
+Print Assumptions C04_transport_kf_predict.
